@@ -402,3 +402,8 @@ Definition fnormalize (s : fsys) : fsys :=
   match fnorm_exp s with None => s | Some e => fscale_sys e s end.
 (* what MatrixCreator::solve hands to Eigen: check(); normalize(); finalize() *)
 Definition fsolver_input (s : fsys) : fsys := ffinalize (fnormalize s).
+
+(* ------------------------------------------------------------------ Eigen::SparseMatrix::setFromTriplets in binary32 (finding F30) *)
+(* the value stored at (r, c): the duplicate triplets are summed in binary32, in triplet order (collapseDuplicates) *)
+Definition fentry (r c : Z) (m : list ftrip) : f32 :=
+  fold_left (fun acc t => if (ft_row t =? r) && (ft_col t =? c) then fadd acc (ft_val t) else acc) m fzero.
